@@ -509,6 +509,10 @@ impl crate::core::Model for FW {
                 let _ = self.engine.knowledge_base().add_rule(rule_from_spec(&l["rule"]));
                 json!({"ok": true})
             }
+            "rmrule" => {
+                let _ = self.engine.knowledge_base().remove_rule(l["name"].as_str().unwrap());
+                json!({"ok": true})
+            }
             "setfact" => {
                 let p = l["p"].as_str().unwrap();
                 let v = value_from_spec(&l["v"]);
